@@ -20,32 +20,32 @@ type Locker = sync.Locker
 type Mutex struct{ mu sync.Mutex }
 
 func (m *Mutex) Lock() {
-	zzsimrt.Point()
+	zzsimrt.SyncPoint()
 	for !m.mu.TryLock() {
 		zzsimrt.Blocked()
 	}
 }
 func (m *Mutex) TryLock() bool { return m.mu.TryLock() }
-func (m *Mutex) Unlock()       { m.mu.Unlock(); zzsimrt.Point() }
+func (m *Mutex) Unlock()       { m.mu.Unlock(); zzsimrt.SyncPoint() }
 
 type RWMutex struct{ mu sync.RWMutex }
 
 func (m *RWMutex) Lock() {
-	zzsimrt.Point()
+	zzsimrt.SyncPoint()
 	for !m.mu.TryLock() {
 		zzsimrt.Blocked()
 	}
 }
 func (m *RWMutex) RLock() {
-	zzsimrt.Point()
+	zzsimrt.SyncPoint()
 	for !m.mu.TryRLock() {
 		zzsimrt.Blocked()
 	}
 }
 func (m *RWMutex) TryLock() bool   { return m.mu.TryLock() }
 func (m *RWMutex) TryRLock() bool  { return m.mu.TryRLock() }
-func (m *RWMutex) Unlock()         { m.mu.Unlock(); zzsimrt.Point() }
-func (m *RWMutex) RUnlock()        { m.mu.RUnlock(); zzsimrt.Point() }
+func (m *RWMutex) Unlock()         { m.mu.Unlock(); zzsimrt.SyncPoint() }
+func (m *RWMutex) RUnlock()        { m.mu.RUnlock(); zzsimrt.SyncPoint() }
 func (m *RWMutex) RLocker() Locker { return (*rlocker)(m) }
 
 type rlocker RWMutex
@@ -84,7 +84,7 @@ type Pool struct {
 }
 
 func (p *Pool) Get() interface{} {
-	zzsimrt.Point()
+	zzsimrt.SyncPoint()
 	p.mu.Lock()
 	if n := len(p.items); n > 0 {
 		x := p.items[n-1]
@@ -107,7 +107,7 @@ func (p *Pool) Put(x interface{}) {
 	p.mu.Lock()
 	p.items = append(p.items, x)
 	p.mu.Unlock()
-	zzsimrt.Point() // a natural preemption point: right after an object went back to the pool
+	zzsimrt.SyncPoint() // a natural preemption point: right after an object went back to the pool
 }
 
 // Map delegates to the real sync.Map (no operation of it blocks, and the
@@ -115,31 +115,35 @@ func (p *Pool) Put(x interface{}) {
 // one iterates in random order, which would break replay.
 type Map struct{ m sync.Map }
 
-func (m *Map) Load(key interface{}) (interface{}, bool) { zzsimrt.Point(); return m.m.Load(key) }
-func (m *Map) Store(key, value interface{})             { zzsimrt.Point(); m.m.Store(key, value); zzsimrt.Point() }
+func (m *Map) Load(key interface{}) (interface{}, bool) { zzsimrt.SyncPoint(); return m.m.Load(key) }
+func (m *Map) Store(key, value interface{}) {
+	zzsimrt.SyncPoint()
+	m.m.Store(key, value)
+	zzsimrt.SyncPoint()
+}
 func (m *Map) LoadOrStore(key, value interface{}) (interface{}, bool) {
-	zzsimrt.Point()
+	zzsimrt.SyncPoint()
 	return m.m.LoadOrStore(key, value)
 }
 func (m *Map) LoadAndDelete(key interface{}) (interface{}, bool) {
-	zzsimrt.Point()
+	zzsimrt.SyncPoint()
 	return m.m.LoadAndDelete(key)
 }
-func (m *Map) Delete(key interface{}) { zzsimrt.Point(); m.m.Delete(key) }
+func (m *Map) Delete(key interface{}) { zzsimrt.SyncPoint(); m.m.Delete(key) }
 func (m *Map) Swap(key, value interface{}) (interface{}, bool) {
-	zzsimrt.Point()
+	zzsimrt.SyncPoint()
 	return m.m.Swap(key, value)
 }
 func (m *Map) CompareAndSwap(key, old, new interface{}) bool {
-	zzsimrt.Point()
+	zzsimrt.SyncPoint()
 	return m.m.CompareAndSwap(key, old, new)
 }
 func (m *Map) CompareAndDelete(key, old interface{}) bool {
-	zzsimrt.Point()
+	zzsimrt.SyncPoint()
 	return m.m.CompareAndDelete(key, old)
 }
 func (m *Map) Range(f func(key, value interface{}) bool) {
-	zzsimrt.Point()
+	zzsimrt.SyncPoint()
 	type kv struct {
 		k, v interface{}
 		s    string
@@ -173,11 +177,11 @@ type WaitGroup struct {
 func (w *WaitGroup) Add(delta int) {
 	atomic.AddInt64(&w.n, int64(delta))
 	w.wg.Add(delta)
-	zzsimrt.Point()
+	zzsimrt.SyncPoint()
 }
 func (w *WaitGroup) Done() { w.Add(-1) }
 func (w *WaitGroup) Wait() {
-	zzsimrt.Point()
+	zzsimrt.SyncPoint()
 	for atomic.LoadInt64(&w.n) > 0 {
 		zzsimrt.Blocked()
 	}
@@ -207,7 +211,7 @@ func (c *Cond) generation() uint64 {
 func (c *Cond) Wait() {
 	g := c.generation()
 	c.L.Unlock()
-	zzsimrt.Point()
+	zzsimrt.SyncPoint()
 	for c.generation() == g {
 		zzsimrt.Blocked()
 	}
@@ -215,4 +219,4 @@ func (c *Cond) Wait() {
 }
 
 func (c *Cond) Signal()    { c.Broadcast() }
-func (c *Cond) Broadcast() { c.mu.Lock(); c.gen++; c.mu.Unlock(); zzsimrt.Point() }
+func (c *Cond) Broadcast() { c.mu.Lock(); c.gen++; c.mu.Unlock(); zzsimrt.SyncPoint() }
